@@ -5,6 +5,7 @@
 package main
 
 //@ import net "net"
+//@ import pb "github.com/refraction-networking/conjure/proto"
 
 // ---------------- C17: client addresses never reach logs/statistics through error texts ----------------
 
@@ -14,4 +15,59 @@ package main
 //@   requires addrFree(errConnReset) && addrFree(errConnRefused) && addrFree(errConnAborted) && addrFree(errUnreachable) && addrFree(errConnTimeout) && addrFree(errNetOp) && addrFree(errConnClosed)
 //@   ensures err == nil ==> result == nil
 //@   ensures @C17: result == nil || addrFree(result)
+// shape of the answer: the argument itself, one of the station's own sentinel errors, or - for a *net.OpError - its cause
+//@   ensures @C03: result == err || result == errConnClosed || result == errConnReset || result == errConnRefused || result == errConnAborted || result == errUnreachable || result == errConnTimeout || (typeis(err, *net.OpError) && (result == unboxptr(err, *net.OpError).Err || result == errNetOp))
+//@   ensures @C03: result == nil ==> err == nil
 //@   assigns nothing
+
+// ---------------- C03: unauthenticated connections get no bytes and no early close ----------------
+//@ import cj "github.com/refraction-networking/conjure/pkg/station/lib"
+//@ import transports "github.com/refraction-networking/conjure/pkg/transports"
+
+// statistics transitions: counters and per-ASN maps of the connection manager (their own lock); no network effect
+//@ func (c *connStats) *()
+//@   assigns allof(connStats.ipv4), allof(connStats.ipv6), allof(connStats.connectingCounts), allmaps(c.v4geoIPMap), allof(asnCounts.cc), allof(asnCounts.statCounts)
+//@   trusted
+//@ func (t cj.WrappingTransport) Name() string
+//@   assigns nothing
+//@ func (t cj.WrappingTransport) LogPrefix() string
+//@   assigns nothing
+//@ func getRemoteAsIP(conn net.Conn) net.IP
+//@   assigns nothing
+//@   trusted
+
+// The handler of one phantom connection. matched: a transport recognised the flight (MarkActive is reached);
+// gaveUp: a transport returned an unexpected error (the handler then sleeps until the deadline).
+// C03 as obligations on the real call sites and as postconditions:
+//  (a) the classification deadline installed on the connection lies 5 to 10 seconds after the current instant and
+//      is installed before the first Read / drain;
+//  (b) on every path without a match the handler itself performs no Write and no Close on the connection
+//      (nwrites/closed unchanged; transports that answer try-again / not-transport do not touch it either);
+//  (c) without a match the handler returns (which is what closes the connection, in its caller) only after a Read on
+//      the connection has ended with an error - peer closed, reset, or the deadline fired - or, after an unexpected
+//      transport error, after sleeping for the rest of the deadline; it keeps reading until then (every iteration
+//      of the classification loop starts with a Read or a drain of the connection).
+//@ func (cm *connManager) handleNewTCPConn(regManager *cj.RegistrationManager, clientConn net.Conn, originalDstIP net.IP)
+//@   requires cm != nil && cm.connStats != nil && regManager != nil && clientConn != nil && regManager.GeoIP != nil && regManager.registeredDecoys != nil
+//@   requires !held(&regManager.registeredDecoys.m) && rheld(&regManager.registeredDecoys.m) == 0
+//@   requires addrFree(errConnReset) && addrFree(errConnRefused) && addrFree(errConnAborted) && addrFree(errUnreachable) && addrFree(errConnTimeout) && addrFree(errNetOp) && addrFree(errConnClosed)
+// the station's sentinel errors are plain errors.New values (they wrap nothing)
+//@   requires isLeafErr(errConnReset) && isLeafErr(errConnRefused) && isLeafErr(errConnAborted) && isLeafErr(errUnreachable) && isLeafErr(errConnTimeout) && isLeafErr(errNetOp) && isLeafErr(errConnClosed)
+//@   atcall SetDeadline#1 before: assert @C03: 5000000000 <= tnanos(arg1) - now() && tnanos(arg1) - now() < 10000000000
+//@   atcall SetDeadline#1 before: snap deadlineAsked := true
+//@   atcall io.Copy before: assert @C03: defined(deadlineAsked) && arg1 == clientConn
+//@   atcall Read before: assert @C03: defined(deadlineAsked)
+//@   atcall MarkActive before: snap matched := true
+//@   atcall time.Sleep before: snap gaveUp := true
+//@   ensures @C03: !defined(matched) && !defined(gaveUp) ==> nwrites(clientConn) == old(nwrites(clientConn)) && closed(clientConn) == old(closed(clientConn))
+//@   ensures @C03: defined(deadlineAsked) && !defined(matched) && !defined(gaveUp) ==> rdEnded(clientConn)
+//@ loop 1:
+//@   invariant cm != nil && cm.connStats != nil && regManager != nil && clientConn != nil && regManager.registeredDecoys != nil
+//@   invariant nwrites(clientConn) == old(nwrites(clientConn)) && closed(clientConn) == old(closed(clientConn))
+//@   invariant possibleTransports != nil && (forall k pb.TransportType :: k in possibleTransports ==> possibleTransports[k] != nil)
+//@   invariant !held(&regManager.registeredDecoys.m) && rheld(&regManager.registeredDecoys.m) == 0
+//@ loop 2:
+//@   invariant cm != nil && cm.connStats != nil && regManager != nil && clientConn != nil && regManager.registeredDecoys != nil
+//@   invariant nwrites(clientConn) == old(nwrites(clientConn)) && closed(clientConn) == old(closed(clientConn))
+//@   invariant possibleTransports != nil && (forall k pb.TransportType :: k in possibleTransports ==> possibleTransports[k] != nil)
+//@   invariant !held(&regManager.registeredDecoys.m) && rheld(&regManager.registeredDecoys.m) == 0
